@@ -240,3 +240,93 @@ def p_c15(tier):
 
 
 PLANS["C15"] = p_c15
+
+# ---------------------------------------------------------------- C16 mutex
+
+
+def c16_shards(tier):
+    quick = tier == "quick"
+    sh = []
+    for ring in (1, 2):
+        for sm, nm in ((1, "run"), (2, "read"), (4, "write")):
+            sh.append(duplex("mutex-%s-r%d" % (nm, ring), ring, ring - 1, 2 if quick else 3, "C16", "C16",
+                             extra=dict(mutex=1, faults=1, h_trigger=0, act="trigger,hold,queries", suffix_mask=sm, ev="+u:R,+h:R,+d:R", crlf=0, max_name=2)))
+    return sh
+
+
+def p_c16(tier):
+    return {"shards": c16_shards(tier), "require": ["lock_faults", "unlock_faults", "units_evt", "lines_hold"],
+            "technique": "explicit-state model checking with fault injection: in every reachable state each of the 8 locking API functions is called with lock() failing, unlock() failing and no fault",
+            "bounds": "duplex scenario (commands, events, hold) with trigger budget %d, queue capacity 1 and 2" % (2 if tier == "quick" else 3),
+            "assumptions": ["when the outcome of a trigger would be undetermined for the oracle (event possibly popped already) the fault is not injected in that one call"]}
+
+
+PLANS["C16"] = p_c16
+
+# ---------------------------------------------------------------- C18 busy / hold queries
+
+
+def p_c18(tier):
+    sh = []
+    for s in c11_shards(tier, prop="C18", mon="C18") + c14_shards(tier, prop="C18", mon="C18"):
+        sh.append(s)
+    for s in c01_shards("quick"):
+        if "cap6-sh0" in s["tag"]:
+            a = list(s["args"]); a[a.index("--mon") + 1] = "C18"; a[a.index("--prop") + 1] = "C18"
+            sh.append({"tag": "busy-" + s["tag"], "bin": s["bin"], "args": a})
+    return {"shards": sh, "require": ["busy_ok_checked", "busy_busy", "hold_yes", "units_evt"],
+            "technique": "explicit-state model checking: cat_is_busy and cat_is_hold are evaluated after every cat_service call of every explored path and compared with the harness' own lexers of input and output",
+            "bounds": "state spaces of the duplex, hold and lines scenarios",
+            "assumptions": []}
+
+
+PLANS["C18"] = p_c18
+
+# ---------------------------------------------------------------- C20 history independence
+
+T_HIST = "+S:W,vu1rw;+R:R,vu1ro;+U:UT;D:W,i"
+
+
+def c20_shards(tier):
+    quick = tier == "quick"
+    sh = []
+    for cap, shared, aa, ma in ((8, 0, "1-", 2), (8, 1, "1-", 2), (6, 0, "1", 6), (6, 1, "1", 6)):
+        for lower in (0, 1):
+            sh.append(mcx("history-cap%d-sh%d-lc%d" % (cap, shared, lower), prop="C20", table=T_HIST, cap=cap, shared=shared, name_alpha="+SRUD", max_name=3 if quick else 4,
+                          args_alpha=aa, max_args=ma, D=1, dev=DEV, lines=0, crlf=1, blank=1, lower=lower, refuse_read=1, refuse_write=1,
+                          codes_W="OK,ERROR", codes_R="DATA_OK,OK", codes_U="OK,LIST", codes_T="DATA_OK,LIST", max_inv=1, mon="C20"))
+    return sh
+
+
+def p_c20(tier):
+    return {"shards": c20_shards(tier), "require": ["lines_done", "lines_blank", "implicit_hits", "overlong", "list_lines", "wvar_ok", "wvar_err"],
+            "technique": "explicit-state model checking to the fixpoint over unboundedly many lines: every line of the family from every reachable quiescent residue, compared with the memoryless reference and the CR rule",
+            "bounds": "line family: grammar lines (names <=%d over 5 symbols, args <=2 over {1,-} at cap 8 and <=6 over {1} at cap 6, all four suffixes) with <=1 deviation from 9 bytes, LF and CRLF, blank lines" % (3 if tier == "quick" else 4),
+            "assumptions": ["variable values range over what the argument alphabet can write"]}
+
+
+PLANS["C20"] = p_c20
+
+# ---------------------------------------------------------------- C09 gating
+
+T_GATE = "+A:U;+AB:UW,vu1rw/w;D:W,i|+ABC:UR,vu1rw/r;+O:T,o,vu1rw"
+
+
+def c09_shards(tier):
+    quick = tier == "quick"
+    sh = []
+    for sm, nm in ((1, "run"), (2, "read"), (4, "write"), (8, "test")):
+        sh.append(mcx("gating-%s" % nm, prop="C09", table=T_GATE, cap=8, name_alpha="+ABCDO", max_name=4, args_alpha="1", max_args=1, suffix_mask=sm,
+                      D=0, lines=0, lower=0, refuse_read=0, refuse_write=0, codes_W="OK", codes_R="OK,DATA_OK", codes_U="OK,LIST", codes_T="OK", max_inv=1,
+                      act="flags", flag_budget=3 if quick else 0, mon="C09"))
+    return sh
+
+
+def p_c09(tier):
+    return {"shards": c09_shards(tier), "require": ["lines_done", "flag_flips", "implicit_hits", "ambiguous_lf", "list_lines"],
+            "technique": "explicit-state model checking: any history of disable-flag flips at line boundaries (%s) interleaved with every line of the family; reference gating on every line" % ("<=3 flips" if tier == "quick" else "fixpoint: histories of any length, all 128 flag subsets"),
+            "bounds": "5 commands in 2 groups with prefix relations, implicit-write and only-test members; names <=4 over 6 symbols; four suffix forms",
+            "assumptions": ["flags are flipped only between command lines"]}
+
+
+PLANS["C09"] = p_c09
